@@ -292,6 +292,78 @@ pub fn step(front: &str, region: &str, s: &St, e: &E) -> (Vec<(String, String)>,
     (v, Some(ns))
 }
 
+
+/// Straight-line histories on one device instance (state that the session snapshot does not carry, e.g. a
+/// TX power commanded by the network, stays in place): an accepted LinkADRReq that keeps the data rate and
+/// commands a TX power, then `n` uplinks nobody answers. `variant` 0: LinkADRReq first; 1: no command at all.
+pub fn line(region: &str, variant: u8, n: u32) -> Vec<(String, String, usize)> {
+    let mut v = vec![];
+    let drs: Vec<u8> = (0..8).filter(|d| rr::dr(region, *d).is_some() && !(region == "EU868" && *d == 6)).collect();
+    // the highest 125 kHz rate (the 500 kHz rate of the fixed plans needs its own mask)
+    let top = *drs.iter().filter(|d| rr::dr(region, **d).map(|x| x.bw) == Some(125_000)).max().unwrap();
+    let mut cfg = DevCfg::abp(region);
+    cfg.dr = Some(top);
+    let mut core: NbCore<14, 0> = NbCore::new(&cfg);
+    let mut model = Model { cnt: 0, dr: top, owed: false, adr: true, strict: true };
+    let cmd: Vec<u8> = if rr::is_fixed(region) { vec![0x03, (top << 4) | 2, 0xFF, 0x00, 0x61] } else { vec![0x03, (top << 4) | 2, 0x07, 0x00, 0x01] };
+    for i in 0..=n {
+        let rx1 = if i == 0 && variant == 0 {
+            Some(Frame::Down { fcnt: Fcnt::Rel(1), confirmed: false, ack: false, fopts: cmd.clone(), port: None, payload: vec![], tamper: Tamper::None })
+        } else {
+            None
+        };
+        let first = rx1.is_some();
+        let mut tx = None;
+        let mut accepted = false;
+        for m in core.apply(&Ev::Cycle { confirmed: false, port: 1, len: 1, rx1, rx2: None }) {
+            if let Resp::Panic(p) = &m.resp {
+                v.push((format!("C12|line|panic|{}", panic_site(p)), p.clone(), i as usize));
+                return v;
+            }
+            for op in &m.ops {
+                if let RadioOp::Tx { bytes, rf, .. } = op {
+                    tx = Some((bytes.clone(), rf.clone()));
+                }
+            }
+            accepted |= matches!(m.judge, Some(Judge::Accept { .. }));
+        }
+        let Some((bytes, rf)) = tx else {
+            v.push(("C12|line|no-uplink".into(), format!("[{region}] uplink {i}"), i as usize));
+            return v;
+        };
+        let Ok(h) = refcodec::parse_data(&bytes) else { return v };
+        let req_bit = h.fctrl & 0x40 != 0;
+        let want_req = model.cnt >= 64 && next_lower(region, model.dr).is_some();
+        let tx_dr: Vec<u8> = rr::dr_index(region, rf.sf, rf.bw).into_iter().filter(|d| *d <= 7).collect();
+        if !tx_dr.contains(&model.dr) {
+            v.push((
+                format!("C12|line|data-rate|{}", if variant == 0 { "after-linkadr-with-txpower" } else { "plain" }),
+                format!("[{region}] uplink {i} after {} uplinks without a downlink went out at DR{tx_dr:?}, the back-off schedule gives DR{}", model.cnt, model.dr),
+                i as usize,
+            ));
+            return v;
+        }
+        if req_bit != want_req {
+            v.push((format!("C12|line|adrackreq-{}", if req_bit { "spurious" } else { "missing" }), format!("[{region}] uplink {i}, {} uplinks without a downlink, DR{}", model.cnt, model.dr), i as usize));
+            return v;
+        }
+        if first && !accepted {
+            return v; // the command downlink was not constructible / accepted: nothing to follow
+        }
+        if accepted {
+            model.cnt = 0;
+        } else {
+            model.cnt += 1;
+            if model.cnt >= 96 && (model.cnt - 64) % 32 == 0
+                && let Some(l) = next_lower(region, model.dr)
+            {
+                model.dr = l;
+            }
+        }
+    }
+    v
+}
+
 #[derive(Clone, Debug, Serialize, Deserialize)]
 pub struct Case {
     pub front: String,
@@ -330,6 +402,9 @@ fn events(front: &str, region: &str) -> Vec<E> {
 pub fn run(tier: Tier, replay: Option<&str>) {
     if let Some(path) = replay {
         let c: Case = serde_json::from_value(load_case(path)).expect("case");
+        if c.front == "line" {
+            replay_exit("C12", path, line(&c.region, c.state.cnt as u8, 400).into_iter().map(|x| x.0).collect());
+        }
         replay_exit("C12", path, step(&c.front, &c.region, &c.state, &c.event).0.into_iter().map(|x| x.0).collect());
     }
     let ctx = Ctx::new("C12", tier);
@@ -409,14 +484,34 @@ pub fn run(tier: Tier, replay: Option<&str>) {
             states_total += seen.len() as u64;
         }
     }
+    // straight-line histories on one device instance, in every region
+    let mut line_uplinks = 0u64;
+    for region in REGIONS {
+        for variant in [0u8, 1] {
+            for (sig, what, at) in line(region, variant, 400) {
+                let c = Case {
+                    front: "line".into(),
+                    region: region.to_string(),
+                    state: St { dr: 0, adr: true, cnt: variant as u32, owed_ack: false, confirmed: false, has_down: false, models: vec![] },
+                    event: E::Up { confirmed: false, outcome: 0 },
+                    path_len: at,
+                };
+                ctx.violation(sig, what, serde_json::to_value(&c).unwrap(), at);
+            }
+            line_uplinks += 401;
+            ctx.tick(401);
+        }
+    }
+    transitions += line_uplinks;
     let coverage = json!({
+        "line_history_uplinks": line_uplinks,
         "states": states_total,
         "transitions": transitions,
         "traces_validated_against_impl": transitions,
         "samples": [serde_json::to_value(Case { front: "nb".into(), region: "EU868".into(), state: St { dr: 5, adr: true, cnt: 95, owed_ack: true, confirmed: false, has_down: true, models: vec![Model { cnt: 95, dr: 5, owed: true, adr: true, strict: true }] }, event: E::Up { confirmed: true, outcome: 0 }, path_len: 96 }).unwrap()],
         "evaluations": ctx.evals(),
         "distinct_nontrivial": states_total,
-        "rule": "complete reachable graph of (data rate, ADR flag, ADR counter, owed ACK, last uplink confirmed, downlink seen, reference-model candidates) from the fresh session at the highest uplink rate, per region and front-end (nb; async with Class C); every state is restored on a fresh real device through Session (de)serialisation + public setters, then one event is applied: uplink (confirmed / unconfirmed) with outcome {nothing, accepted unconfirmed dl RX1, accepted confirmed dl RX2, rejected dl, Class C accepted dl before RX1 / RX2, confirmed Class C dl before RX1 followed by an unconfirmed dl in RX1}, set_adr(on/off), set_datarate(lowest/middle/highest, and DR8 above the RFU gap of the fixed plans). The counter dimension is followed until it has passed every back-off step plus two periods",
+        "rule": "complete reachable graph of (data rate, ADR flag, ADR counter, owed ACK, last uplink confirmed, downlink seen, reference-model candidates) from the fresh session at the highest uplink rate, per region and front-end (nb; async with Class C); every state is restored on a fresh real device through Session (de)serialisation + public setters, then one event is applied: uplink (confirmed / unconfirmed) with outcome {nothing, accepted unconfirmed dl RX1, accepted confirmed dl RX2, rejected dl, Class C accepted dl before RX1 / RX2, confirmed Class C dl before RX1 followed by an unconfirmed dl in RX1}, set_adr(on/off), set_datarate(lowest/middle/highest, and DR8 above the RFU gap of the fixed plans). The counter dimension is followed until it has passed every back-off step plus two periods. In addition, in every region, two straight-line histories of 400 unanswered uplinks on one device instance (after an accepted LinkADRReq that commands a TX power, and without one), each uplink compared with the back-off schedule",
         "max_adr_counter_reached": max_cnt_seen,
         "regions": regions,
         "outcomes": outcomes,
@@ -425,6 +520,9 @@ pub fn run(tier: Tier, replay: Option<&str>) {
     });
     let replayer = |cj: &Value| -> Vec<String> {
         let c: Case = serde_json::from_value(cj.clone()).unwrap();
+        if c.front == "line" {
+            return line(&c.region, c.state.cnt as u8, 400).into_iter().map(|x| x.0).collect();
+        }
         step(&c.front, &c.region, &c.state, &c.event).0.into_iter().map(|x| x.0).collect()
     };
     ctx.finish(
